@@ -356,6 +356,12 @@ func concreteReqBody(class string, rng *rand.Rand, key string) (body []byte, chu
 		return pattern(key, t), true, p
 	case "chunked-1byte-first":
 		return pattern(key, 2001), true, []int{1, 2000}
+	case "chunked-64k-plus-1":
+		// one byte beyond 64 KiB, without an announced length (a round size for a buffer in front of the relay)
+		return pattern(key, 65537), true, []int{30000, 35536, 1}
+	case "chunked-big":
+		n := 300000 + rng.Intn(5000)
+		return pattern(key, n), true, []int{100000, n - 200000, 100000}
 	}
 	return pattern(key, size[class]), false, nil
 }
